@@ -166,6 +166,8 @@ std::string classify_crash(const std::string &err, int status)
 			}
 		}
 	}
+	if (kind.empty() && (err.find("json.hpp") != std::string::npos || err.find("terminate called") != std::string::npos || err.find("/verif/sim/") != std::string::npos))
+		return "checker-fault:harness-abort"; // an assertion or exception of the simulator itself, never a property violation
 	if (kind.empty()) {
 		if (WIFSIGNALED(status))
 			return "crash:signal" + std::to_string(WTERMSIG(status));
@@ -901,6 +903,12 @@ int run_check(const CheckArgs &a)
 		if (handled.count(c.cls))
 			continue;
 		handled.insert(c.cls);
+		if (c.cls.compare(0, 14, "checker-fault:") == 0) {
+			fprintf(stderr, "CHECKER FAULT: %s at idx %lu\n%s\n", c.cls.c_str(), (unsigned long)c.idx, c.detail.substr(0, 600).c_str());
+			dprintf(g_out_fd, "checker fault (not a violation): %s at run index %lu\n", c.cls.c_str(), (unsigned long)c.idx);
+			gate_failures++;
+			continue;
+		}
 		// gate (1): twice in-process-forked, same class
 		IsoResult g1 = eval_isolated(P, c.plan, 60), g2 = eval_isolated(P, c.plan, 60);
 		// gate (2): fresh process
